@@ -40,6 +40,9 @@ class LabelParser:
         self.i += len(x)
 
     def label(self):
+        # the unitless unit prints the empty string (also inside a scaling: "[(1000 / 9) ]")
+        if self.i == len(self.t) or self.peek("]") or self.peek("}") or self.peek(", "):
+            return U({}, {})
         if self.peek("1 / "):
             self.eat("1 / ")
             return self.group().pow(-1)
